@@ -369,3 +369,92 @@ func importObligations(r *Report, run func(sub *Report), fromRule, toRule string
 		r.add(toRule, construct, o.Status, o.Pos, o.Msg, nil)
 	}
 }
+
+// checkNoDoubleChannelClose: Channel.Open closes the channel itself whenever it fails after the transport was opened
+// (C10/cleanup-requeue), and Channel.Close is not idempotent (known finding C07/K2: a second Close panics with
+// "close of closed channel"). A driver Open that closes the channel again on that failing edge turns every failed
+// in-channel login -- a stall during authentication, say -- into a panic instead of the timeout / auth error.
+func checkNoDoubleChannelClose(c *Ctx, r *Report, rule string) {
+	chOpen := c.LookupFunc("channel", "Channel", "Open")
+	chClose := c.LookupFunc("channel", "Channel", "Close")
+	if chOpen == nil || chClose == nil {
+		r.Anchor(rule, "(*channel.Channel).Open / Close")
+		return
+	}
+	n := 0
+	for _, pk := range [][2]string{{"driver/generic", "Driver"}, {"driver/network", "Driver"}, {"driver/netconf", "Driver"}} {
+		fn := c.LookupFunc(pk[0], pk[1], "Open")
+		if fn == nil {
+			r.Anchor(rule, "(*"+pk[0]+".Driver).Open")
+			continue
+		}
+		for _, ci := range staticCallsTo(fn, chOpen) {
+			call, ok := ci.(*ssa.Call)
+			if !ok {
+				continue
+			}
+			errs := errResultsOf(call)
+			if len(errs) != 1 {
+				continue
+			}
+			n++
+			construct := shortFn(fn) + " after a failed Channel.Open"
+			var failing *ssa.BasicBlock
+			for _, b := range fn.Blocks {
+				cond := ifCond(b)
+				if cond == nil {
+					continue
+				}
+				x, nonNilOnTrue, isNil := nilCheck(cond)
+				if !isNil || x != errs[0] {
+					continue
+				}
+				failing = b.Succs[1]
+				if nonNilOnTrue {
+					failing = b.Succs[0]
+				}
+			}
+			if failing == nil {
+				r.Unk(rule, construct, c.Pos(call.Pos()), "the error of Channel.Open is not tested")
+				continue
+			}
+			// direct calls on the failing path, and deferred closures registered before the open that close on error
+			var again ssa.Instruction
+			isClose := func(in ssa.Instruction) bool {
+				ci2, ok := in.(ssa.CallInstruction)
+				return ok && ci2.Common().StaticCallee() == chClose
+			}
+			if isClose(failing.Instrs[0]) {
+				again = failing.Instrs[0]
+			}
+			rr := reachFrom(fn, failing.Instrs[0], nil, nil)
+			for in := range rr.visited {
+				if isClose(in) {
+					again = in
+				}
+			}
+			for _, ci2 := range callInstrs(fn) {
+				d, ok := ci2.(*ssa.Defer)
+				if !ok || !dominatesInstr(d, call) {
+					continue
+				}
+				if mc, ok := d.Call.Value.(*ssa.MakeClosure); ok {
+					if len(staticCallsTo(mc.Fn.(*ssa.Function), chClose)) > 0 {
+						again = d
+					}
+				}
+				if d.Call.StaticCallee() == chClose {
+					again = d
+				}
+			}
+			if again != nil {
+				r.Bad(rule, construct, c.Pos(again.Pos()), "the driver closes the channel on the failing edge of Channel.Open, which has already closed it: Channel.Close is not idempotent (close of closed channel), so a stall or refusal during in-channel authentication makes Open panic instead of returning the timeout / authentication error")
+			} else {
+				r.OK(rule, construct, c.Pos(call.Pos()), "the error is returned; the channel is not closed a second time")
+			}
+		}
+	}
+	if n == 0 {
+		r.Unk(rule, "driver Open", "-", "no driver Open calls Channel.Open")
+	}
+}
